@@ -318,3 +318,59 @@ def np_array(eng, st, args, kwargs, line):
     if isinstance(a, VArr) and "dtype" not in kwargs:
         return val(st, a)  # a copy with the same contents: callers here never write it
     raise OutOfSubset(f"line {line}: np.array({a!r})")
+
+
+def _pointwise2(name):
+    def f(eng, st, args, kwargs, line):
+        eng.assume_tag("A-NP")
+        a, b = args[0], args[1]
+        arr = a if isinstance(a, VArr) else b
+        if not isinstance(arr, VArr):
+            raise OutOfSubset(f"line {line}: numpy.{name} of scalars")
+        j = z3.Int("j!mm")
+
+        def el(x):
+            if isinstance(x, VArr):
+                return eng.to_real(eng.elem_wrap(z3.Select(st.heap[x.obj], eng.arr_index_term(x, j)), st.hmeta[x.obj]["kind"]))
+            return eng.to_real(x)
+        x, y = el(a), el(b)
+        raw = z3.If(x >= y, x, y) if name == "maximum" else z3.If(x <= y, x, y)
+        return val(st, new_array(eng, st, [arr.n], "real", st.hmeta[arr.obj].get("dtype"), z3.Lambda([j], raw), name))
+    return f
+
+
+MODELS["numpy.maximum"] = _pointwise2("maximum")
+MODELS["numpy.minimum"] = _pointwise2("minimum")
+
+
+@model("numpy.modf")
+def np_modf(eng, st, args, kwargs, line):
+    x = eng.to_real(args[0], line)
+    ip = smt.fresh("ipart")
+    fr = smt.fresh("frac", REAL)
+    st.assume(z3.And(x == z3.ToReal(ip) + fr, z3.If(x >= 0, z3.And(0 <= fr, fr < 1), z3.And(-1 < fr, fr <= 0))))
+    return val(st, VTuple([VReal(fr), VReal(z3.ToReal(ip))]))
+
+
+@model("numpy.isclose")
+def np_isclose(eng, st, args, kwargs, line):
+    return val(st, VBool(smt.fresh("isclose", BOOL)))  # only ever guards a log message here
+
+
+_reshape2 = MODELS["arrmethod.reshape"]
+
+
+def _reshape_any(eng, st, args, kwargs, line):
+    dims = args[1:]
+    if len(dims) == 1 and isinstance(dims[0], (VTuple, VList)):
+        dims = dims[0].items
+    if len(dims) == 3:
+        a = args[0]
+        n = [eng.to_int(d, line) for d in dims]
+        eng.oblig(st, f"shape@{line}", smt.som(n[0] * n[1] * n[2]) == a.n, line, label="reshape size (ValueError)")
+        return val(st, VOpaque("3-D view"))
+    return _reshape2(eng, st, args, kwargs, line)
+
+
+MODELS["arrmethod.reshape"] = _reshape_any
+MODELS["class:sigpyproc/foldedcube.py::FoldedData"] = lambda eng, st, args, kwargs, line: val(st, VOpaque("FoldedData"))
